@@ -20,6 +20,8 @@
      "leadzero"    strict mode's leading-zero rule only covers positive non-zero integers (D16b)
      "comment_star" a block comment ending in "**/" is not terminated (D16c)
      "name_nul"    member names are cut at an escaped NUL (D01a; kept as a known finding)
+     "inner_eof_success" a terminating NUL after a complete value INSIDE a container (in a comment) ends the call with
+                   success, that value and the parser still one level deep; the next document's value is then lost (D04b)
    and pure mutants: "depth_off_array", "depth_off_object" (depth check), "true_is_false" (the literal true yields
    false: anti-vacuity for C01's Accepts). *)
 EXTENDS Naturals, Integers, Sequences, FiniteSets, TLC, Text, Wide
@@ -277,9 +279,12 @@ Out(tok) ==
   LET lv == Top(tok)
       e0 == IF tok.fl.utf8 /\ tok.nb # 0 THEN "utf8" ELSE tok.err
       e1 == IF tok.c # 0 /\ lv.st = "finish" /\ Depth(tok) = 1 /\ tok.fl.strict /\ ~tok.fl.trailing THEN "unexpected" ELSE e0
-      e2 == IF tok.c = 0 /\ lv.st # "finish" /\ lv.sst # "finish" THEN "eof" ELSE e1
+      \* the terminating NUL: the data ends here, and only a document that is complete at the OUTERMOST level is a success
+      \* (as found - D04b - the test looked at the innermost level only: `[7 /* x` returned 7 and left the parser one level deep)
+      e2 == IF tok.c = 0 /\ ((lv.st # "finish" /\ lv.sst # "finish") \/ (Depth(tok) > 1 /\ "inner_eof_success" \notin AsFound)) THEN "eof" ELSE e1
   IN IF e2 = "success"
-     THEN [tok EXCEPT !.err = e2, !.done = TRUE, !.ret = lv.cur, !.stack = <<Level0>>]
+     \* (the partial reset after a success clears every level in use but does not touch the depth)
+     THEN [tok EXCEPT !.err = e2, !.done = TRUE, !.ret = lv.cur, !.stack = [i \in 1..Depth(tok) |-> Level0]]
      ELSE [tok EXCEPT !.err = e2, !.done = TRUE, !.ret = NoValue]
 
 \* json_tokener_validate_utf8 on the peeked byte: [ok, nb]
@@ -324,7 +329,8 @@ Outcome(tok) == [err |-> tok.err, ret |-> tok.ret, end |-> tok.off]
 \* position without a reset.  cuts = ascending chunk boundaries; a later chunk is only given after "continue",
 \* after a success the rest of the current chunk is given next.  Result: the sequence of outcomes
 \* [st, val, end (from the start of the buffer)]; it ends with the first error, or with "continue" at the end.
-StreamOutcome(t, pos) == [st |-> t.err, val |-> t.ret, end |-> pos + t.off]
+\* lost: the call returned while its local `obj` still held a completed child that no container had taken (a leak)
+StreamOutcome(t, pos) == [st |-> t.err, val |-> t.ret, end |-> pos + t.off, lost |-> t.obj # NoValue]
 RECURSIVE StreamRun(_, _, _, _, _, _)
 StreamRun(tok, text, pos, cuts, acc, fuel) ==
     IF pos >= Len(text) \/ fuel = 0 THEN acc
